@@ -237,6 +237,8 @@ def forceFinish (d : DState) : Nat â†’ List Nat â†’ DState
 def finishDelete (d : DState) (i : Nat) : DState Ã— String :=
   let before := d.cfg.heap
   let c := advance d.fixed d.cfg i
+  -- the unlink events of the delete itself, counted before the waiting updates can link the same keys again
+  let n := unlinks d.keys before c.heap
   let d := finishHist { d with cfg := c, inflight := none } i
   let (d, toks) := d.waiting.foldl (fun (acc : DState Ã— List String) (w : String Ã— Nat) =>
     let d := acc.1
@@ -247,7 +249,8 @@ def finishDelete (d : DState) (i : Nat) : DState Ã— String :=
     | .missed => (d, acc.2 ++ [w.1 ++ ":parked-miss"])
     | _ => (d, acc.2 ++ [w.1 ++ ":parked"])) (d, [])
   let d := { d with waiting := [] }
-  (d, schedOut d before ("done -" ++ (if toks.isEmpty then "" else " " ++ ",".intercalate toks)))
+  (d, "done -" ++ (if toks.isEmpty then "" else " " ++ ",".intercalate toks) ++ " u=" ++ toString n ++ " | " ++
+      showIndex d.keys d.cfg.heap.index)
 
 /-- `dbegin`: the delete goroutine parks before each unlink; without any it runs through. -/
 def dbegin (d : DState) (name : String) (op? : Option Op) : DState Ã— String :=
@@ -267,7 +270,17 @@ def stepSched (d : DState) (toks : List String) : DState Ã— String :=
   let before := d.cfg.heap
   match d.inflight, toks with
   | some (name, i, remaining), ["step", n] =>
-    if n != name then (d, "bad-op")
+    if n != name then
+      -- an update parked in the slow path of its lookup (before the index write lock): released while the
+      -- delete holds the index lock, it waits for it
+      match d.names.lookup n with
+      | none => (d, "bad-op")
+      | some j =>
+        match pcOf d.cfg j with
+        | .missed =>
+          if d.waiting.any (fun w => w.2 == j) then (d, "bad-op")
+          else ({ d with waiting := d.waiting ++ [(n, j)] }, "blocked")
+        | _ => (d, "bad-op")
     else if remaining > 1 then ({ d with inflight := some (name, i, remaining - 1) }, "dparked")
     else finishDelete d i
   | some _, ["begin", name, sk, k, eps] =>
@@ -290,6 +303,8 @@ where stepSchedFree (d : DState) (before : Heap) (toks : List String) : DState Ã
   match toks with
   | ["dbegin", name, "delshard", sk] => dbegin d name (decOp ["delshard", sk])
   | ["dbegin", name, "prune", sk, keep] => dbegin d name (decOp ["prune", sk, keep])
+  -- `DeleteServiceShard` in a goroutine of its own (parks only if it unlinks the service's entry)
+  | ["dbegin", name, "delsvc", sk, k, p] => dbegin d name (decOp ["delsvc", sk, k, p])
   | ["begin", name, sk, k, eps] =>
     match decOp ["upd", sk, k, eps] with
     | none => (d, "bad-op")
